@@ -10,7 +10,7 @@ pub struct C08P;
 pub static C08: C08P = C08P;
 
 /// Subject kinds: how the receiver whose rows are iterated is obtained.
-pub const KINDS: [&str; 10] = ["O", "V1", "V3", "M1", "M2", "N", "D", "DL", "DV", "DN"];
+pub const KINDS: [&str; 12] = ["O", "V1", "V3", "M1", "M2", "N", "D", "DL", "DV", "DN", "VC", "VI"];
 
 /// (parent cols, parent rows, abs start of the receiver) for a receiver of size (c, r).
 pub fn layout(kind: &str, c: usize, r: usize) -> (usize, usize, (usize, usize)) {
@@ -27,7 +27,9 @@ pub fn layout(kind: &str, c: usize, r: usize) -> (usize, usize, (usize, usize)) 
             }
         }
         "V1" => (c + 1, r.max(1), (1, 0)),
-        "V3" => (c + 3, r + 2, (1, 1)),
+        // V3 through an explicit Clone::clone; a mutable window converted with From / into()
+        "V3" | "VC" => (c + 3, r + 2, (1, 1)),
+        "VI" => (c + 2, r + 2, (1, 1)),
         "M1" => (c + 1, r.max(1), (0, 0)),
         "M2" => (c + 2, r + 2, (1, 1)),
         // nested: outer window (1,0)-(c+2, r+1) of a (c+3) x (r+1) parent, inner (1,1)-(1+c,1+r)
@@ -95,6 +97,18 @@ macro_rules! with_subject {
             }
             ("V3", _) => {
                 let v__ = $root.view((1, 1), (1 + c__, 1 + r__));
+                let $x = &v__;
+                $ro
+            }
+            ("VC", _) => {
+                let v0__ = $root.view((1, 1), (1 + c__, 1 + r__));
+                #[allow(clippy::clone_on_copy)]
+                let v__ = Clone::clone(&v0__);
+                let $x = &v__;
+                $ro
+            }
+            ("VI", _) => {
+                let v__: toodee::TooDeeView<'_, _> = $root.view_mut((1, 1), (1 + c__, 1 + r__)).into();
                 let $x = &v__;
                 $ro
             }
@@ -202,10 +216,18 @@ impl Prop for C08P {
                 v.push(format!("{} {}x{} rows_mut", k, c, r));
             }
         }
+        for (c, r) in super::hugezst::shapes() {
+            v.push(format!("hugezst {}x{}", c, r));
+        }
         v
     }
     fn run_unit(&self, unit: &str, ctx: &mut Ctx) {
         let p: Vec<&str> = unit.split(' ').collect();
+        if p[0] == "hugezst" {
+            let (c, r) = super::hugezst::parse_shape(p[1]);
+            run_huge_zst(c, r, ctx);
+            return;
+        }
         let kind = p[0];
         let (c, r) = p[1].split_once('x').unwrap();
         let (c, r): (usize, usize) = (c.parse().unwrap(), r.parse().unwrap());
@@ -217,11 +239,52 @@ impl Prop for C08P {
          For every subject EVERY call sequence up to the depth bound over {next, next_back, nth(n), nth_back(n)} with n in 0..=rows+1 plus overflow-provoking values (indices whose product with the stride wraps into the slice, usize::MAX/stride, usize::MAX), cut two calls after the ideal sequence is exhausted, \
          is executed on a fresh real iterator; len(), size_hint() and num_cols() are checked after every call; every proper prefix is additionally closed with each of count, last, fold, rfold, for_each, rev-then-forward. \
          Every result must equal the ideal VecDeque of row slices compared by ADDRESS and length; for rows_mut every yielded slice is written through and the array must show exactly those writes (disjointness, write-through). \
+         Arrays of () with close to usize::MAX cells (shapes usize::MAX x 1, 1 x usize::MAX, MAX/k x k, 2^32 x (2^32-1), ...) and their windows: rows() / rows_mut() must report exact len()/size_hint(), yield rows of the window's width and follow the ideal sequence by count for every sequence of up to three calls of next / next_back / nth(0..=2) / nth_back(0..=2), and - when at most four rows are left - jumps by huge n, count and last. \
          states = distinct (subject, front, back) cursor positions of the ideal sequence reached; transitions = iterator calls; traces_validated_against_impl = sequences executed on the real iterator."
             .into()
     }
     fn bound(&self, tier: Tier) -> String {
         format!("shapes up to {0}x{0} plus 1x{1} and {1}x1; depth {2}", tier.pick(3, 4), tier.pick(3, 4) + 2, tier.pick(4, 5))
+    }
+}
+
+/// rows() / rows_mut() of huge arrays of () and of their windows (see props/hugezst.rs).
+fn run_huge_zst(c: usize, r: usize, ctx: &mut Ctx) {
+    use super::hugezst::{array, enc, run, sequences, windows};
+    for (s, e) in windows(c, r) {
+        let (wc, wr) = (e.0 - s.0, e.1 - s.1);
+        for seq in sequences(wr, &[c, wc]) {
+            for kind in 0..4u8 {
+                if kind < 2 && (s, e) != ((0, 0), (c, r)) {
+                    continue;
+                }
+                let name = ["TooDee::rows()", "TooDee::rows_mut()", "view(..).rows()", "view_mut(..).rows_mut()"][kind as usize];
+                ctx.case(
+                    || format!("TooDee<()> {}x{} window {:?}-{:?} {}: {}", c, r, s, e, name, enc(&seq)),
+                    |cs| {
+                        cs.nontrivial((c, r, s, e, kind, &seq));
+                        cs.outcome("huge-zst");
+                        cs.transitions = seq.len() as u64;
+                        cs.traces = 1;
+                        let mut t = array(c, r);
+                        let what = format!("{} of the {}x{} window", name, wc, wr);
+                        let ok = |row_len: usize| if row_len == wc { None } else { Some(format!("row of length {} yielded, the window is {} wide", row_len, wc)) };
+                        match kind {
+                            0 => run(t.rows(), wr, &seq, |x| ok(x.len()), &what, cs),
+                            1 => run(t.rows_mut(), wr, &seq, |x| ok(x.len()), &what, cs),
+                            2 => match crate::engine::guarded(|| t.view(s, e)) {
+                                Ok(v) => run(v.rows(), wr, &seq, |x| ok(x.len()), &what, cs),
+                                Err(m) => cs.fail("hugezst:panic", format!("view({:?},{:?}) panicked: {}", s, e, m)),
+                            },
+                            _ => match crate::engine::guarded(|| t.view_mut(s, e)) {
+                                Ok(mut v) => run(v.rows_mut(), wr, &seq, |x| ok(x.len()), &what, cs),
+                                Err(m) => cs.fail("hugezst:panic", format!("view_mut({:?},{:?}) panicked: {}", s, e, m)),
+                            },
+                        }
+                    },
+                );
+            }
+        }
     }
 }
 
